@@ -31,8 +31,12 @@ func main() {
 	paths := flag.Bool("paths", true, "")
 	verbose := flag.Bool("v", false, "")
 	rtMode := flag.String("runtime", "", "runtime mode: on|off (default: per scenario PRNG)")
+	kmMode := flag.String("km", "", "key manager mode: on|off (default: per profile)")
+	kmChurp := flag.Bool("km-genesis-churp", false, "put a CHURP instance into the genesis document")
 	flag.Parse()
 	chainsim.RuntimeMode = *rtMode
+	chainsim.KeyManagerMode = *kmMode
+	chainsim.KeyManagerGenesisChurp = *kmChurp
 	if *verbose {
 		_ = logging.Initialize(os.Stderr, logging.FmtLogfmt, logging.LevelDebug, nil)
 	}
@@ -51,7 +55,9 @@ func main() {
 	cm := &chainsim.CommitteeMonitor{Rep: rep}
 	rm := &chainsim.RoundMonitor{Rep: rep}
 	em := &chainsim.ElectionMonitor{Rep: rep}
-	h, err := chainsim.NewHistory(cfg, em, cm, rm)
+	km := &chainsim.KeyManagerMonitor{Rep: rep}
+	regm := &chainsim.RegistryMonitor{Rep: rep}
+	h, err := chainsim.NewHistory(cfg, em, cm, rm, km, regm)
 	if err != nil {
 		fmt.Println("ERR", err)
 		os.Exit(2)
@@ -91,6 +97,19 @@ func main() {
 			fmt.Printf("  RT %-55s %d\n", k, rep.counts[k])
 		}
 		fmt.Printf("  RT plans %v\n", h.Gen.RuntimePlans())
+	}
+	if h.Sc.KM != nil {
+		krep := &printRep{counts: map[string]int64{}}
+		km.Report(krep)
+		var cs []string
+		for k := range krep.counts {
+			cs = append(cs, k)
+		}
+		sort.Strings(cs)
+		for _, k := range cs {
+			fmt.Printf("  KM %-60s %d\n", k, krep.counts[k])
+		}
+		fmt.Printf("  KM notes %v\n", h.Gen.Notes)
 	}
 	h.Close()
 	h.CloseBuilder()
